@@ -55,6 +55,131 @@ def to_ctypes(node, cfg, counter):
     raise Unmappable(k)
 
 
+# ---------------------------------------------------------------------------------------------------
+# third oracle: a real C compiler (the same declarations are compiled and sizeof/_Alignof/offsetof printed)
+
+C_INT = {"int8": "int8_t", "uint8": "uint8_t", "int16": "int16_t", "uint16": "uint16_t", "int32": "int32_t",
+         "uint32": "uint32_t", "int64": "int64_t", "uint64": "uint64_t", "int128": "__int128",
+         "uint128": "unsigned __int128", "float": "float", "double": "double", "float16": "uint16_t"}
+
+
+def to_c(node, cfg, name):
+    """C declarator text for a member of this type named `name`."""
+    k = node["k"]
+    if k == "int":
+        if node["t"] not in C_INT:
+            raise Unmappable(node["t"])
+        return f"{C_INT[node['t']]} {name}"
+    if k == "float":
+        return f"{C_INT[node['t']]} {name}"
+    if k == "char":
+        return f"uint8_t {name}"
+    if k == "wchar":
+        return f"uint16_t {name}"
+    if k == "enum":
+        if node["base"] not in C_INT:
+            raise Unmappable(node["base"])
+        return f"{C_INT[node['base']]} {name}"
+    if k == "ptr":
+        return f"{C_INT[cfg.ptr]} {name}"
+    if k == "array":
+        dims, t = [], node
+        while t["k"] == "array":
+            if t["len"]["f"] != "fixed":
+                raise Unmappable("dynamic array")
+            dims.append(max(0, t["len"]["n"]))
+            t = t["elem"]
+        return to_c(t, cfg, name) + "".join(f"[{d}]" for d in dims)
+    if k == "struct":
+        return f"{c_struct_body(node, cfg)} {name}"
+    raise Unmappable(k)
+
+
+def c_struct_body(node, cfg):
+    members = []
+    for i, f in enumerate(node["fields"]):
+        if f.get("bits"):
+            raise Unmappable("bit-field")
+        members.append(to_c(f["t"], cfg, f["name"] or "") + ";")
+    attr = "" if cfg.align else " __attribute__((packed))"
+    return f"{'union' if node['union'] else 'struct'}{attr} {{ {' '.join(members)} }}"
+
+
+class CCompilerOracle:
+    def __init__(self, ctx):
+        self.ctx = ctx
+        self.cases = []
+
+    def add(self, case, cfgd, cfg, T):
+        top = case["top"]
+        try:
+            body = c_struct_body(top, cfg)
+        except Unmappable:
+            return
+        names = [f["name"] for f in top["fields"] if f["name"] is not None]
+        offs = [lf.offset for nf, lf in zip(top["fields"], T.__fields__) if nf["name"] is not None]
+        self.cases.append({"body": body, "names": names, "lib": [len(T), T.alignment if cfgd["align"] else None] + offs,
+                           "case": case, "cfgd": cfgd})
+
+    def run(self):
+        import os
+        import shutil
+        import subprocess
+        import tempfile
+
+        cc = shutil.which("cc") or shutil.which("gcc") or shutil.which("clang")
+        if not self.cases:
+            return
+        if cc is None:
+            self.ctx.event("c_compiler_unavailable")
+            return
+        src = ["#include <stdio.h>", "#include <stdint.h>", "#include <stddef.h>"]
+        main = ["int main(void) {"]
+        for i, c in enumerate(self.cases):
+            decl = c["body"].replace("{", f"T{i} {{", 1) if False else c["body"]
+            kw, rest = decl.split(" ", 1)
+            src.append(f"typedef {decl} T{i};")
+            fmt = "%d %zu %zu" + " %zu" * len(c["names"])
+            args = [str(i), f"sizeof(T{i})", f"_Alignof(T{i})"] + [f"offsetof(T{i}, {n})" for n in c["names"]]
+            main.append(f'  printf("{fmt}\\n", {", ".join(args)});')
+        main.append("  return 0; }")
+        tmp = tempfile.mkdtemp(prefix="vf-c04-")
+        try:
+            path = os.path.join(tmp, "layout.c")
+            with open(path, "w") as fh:
+                fh.write("\n".join(src + main) + "\n")
+            r = subprocess.run([cc, "-std=gnu11", "-O0", "-w", path, "-o", os.path.join(tmp, "layout")],
+                               capture_output=True, text=True, timeout=300)
+            if r.returncode != 0:
+                self.ctx.event("c_compiler_rejected_batch")
+                self.ctx.extra["c_compiler_error"] = r.stderr[-400:]
+                return
+            out = subprocess.run([os.path.join(tmp, "layout")], capture_output=True, text=True, timeout=60).stdout
+        finally:
+            shutil.rmtree(tmp, ignore_errors=True)
+        for line in out.splitlines():
+            vals = [int(x) for x in line.split()]
+            c = self.cases[vals[0]]
+            want = vals[1:]
+            got = c["lib"]
+            self.ctx.evaluation(("cc", c["case"]["text"], tuple(sorted(c["cfgd"].items()))))
+            self.ctx.event("checked_against_c_compiler")
+            bad = None
+            if got[0] != want[0]:
+                bad = ("size", got[0], want[0])
+            elif got[1] is not None and got[1] != want[1]:
+                bad = ("alignment", got[1], want[1])
+            else:
+                for n, g, w in zip(c["names"], got[2:], want[2:]):
+                    if g != w and not c["case"]["top"]["union"]:
+                        bad = (f"offset of {n}", g, w)
+                        break
+            if bad:
+                self.ctx.violation("c-compiler", f"{bad[0].split()[0]}-differs-from-what-the-C-compiler-lays-out",
+                                   case_detail(c["case"], cfg=c["cfgd"], what=bad[0], got=bad[1], want=bad[2],
+                                               c_declaration=c["body"]))
+
+
 def gen_opts(rng, thorough):
     o = dict(fixed_only=True, dyn=False, leb=False, eof=False, dyn_unions=False)
     if thorough:
@@ -120,7 +245,7 @@ def compare_ctypes(ctx, case, cfgd, cfg, node, T, viol):
     rec(ct, T, "T")
 
 
-def check_case(ctx, case, rng):
+def check_case(ctx, case, rng, cc=None):
     top = case["top"]
     text = case["text"] + "struct P__ { char pad[sizeof(T)]; uint8 mark; };\n"
     for cfgd in engine.std_configs(rng, ctx.thorough, top):
@@ -148,6 +273,8 @@ def check_case(ctx, case, rng):
         if not compare_layout(ctx, case, cfgd, cfg, top, T, viol):
             continue
         compare_ctypes(ctx, case, cfgd, cfg, top, T, viol)
+        if cc is not None and cfgd["compiled"]:
+            cc.add(case, cfgd, cfg, T)
         # the four size observations
         n = len(T)
         sizeof_seen = cs.P__.fields["mark"].offset
@@ -183,6 +310,7 @@ def check_case(ctx, case, rng):
 
 
 def run(ctx):
+    cc = CCompilerOracle(ctx)
     for i in range(N_CASES[ctx.tier]):
         if ctx.out_of_time():
             break
@@ -190,9 +318,10 @@ def run(ctx):
         case = engine.make_case(rng, **gen_opts(rng, ctx.thorough))
         for t in case["feats"]:
             ctx.cell("feat:" + t)
-        check_case(ctx, case, rng)
+        check_case(ctx, case, rng, cc)
         if i < 2:
             ctx.sample({"text": case["text"], "feats": case["feats"]})
+    cc.run()
 
 
 def replay(ctx, detail):
